@@ -74,6 +74,13 @@ def build(case):
     f.equation = c
     st.initial_value = 1.0
     st.equation = f
+    # elements that read the time itself: an off-grid time handed to the equation shows in the value
+    from BPTK_Py import sd_functions as sd
+    clk = m.converter("clk")
+    clk.equation = sd.time()
+    acc = m.stock("acc")
+    acc.initial_value = 0.0
+    acc.equation = sd.time() * 1.0
     return m, st
 
 
@@ -166,6 +173,23 @@ def run_case(case):
                         bad.append(dict(where="route " + rn, kind="route", grid_t=t, route_t=rt, got=v, at_grid=base, expected=expval(i)))
                         break
                 acc = acc + dt
+                if any(x["kind"] == "route" for x in bad):
+                    break
+            # same on a fresh model, route FIRST (an off-grid evaluation must not poison the cache), for time-reading elements
+            m2, _ = build(case)
+            clk, acc2 = m2.converters["clk"], m2.stocks["acc"]
+            accr = start
+            for i, t in enumerate(exp):
+                routes = [start + i * dt, accr, stop - (len(exp) - 1 - i) * dt] + ([exp[i + 1] - dt] if i + 1 < len(exp) else [])
+                order = routes + [t] if i % 2 == 0 else [t] + routes
+                vals = [(rt, clk(rt), acc2(rt)) for rt in order]
+                counters["routes"] = counters.get("routes", 0) + len(order)
+                ref_acc = float(sum(D(str(x)) for x in exp[:i]) * D(case["dt"]))
+                for (rt, vc, va) in vals:
+                    if vc != t or abs(va - ref_acc) > 1e-9 * max(1.0, abs(ref_acc)):
+                        bad.append(dict(where="route time-reading", kind="route", grid_t=t, route_t=rt, clk=vc, acc=va, expected_clk=t, expected_acc=ref_acc))
+                        break
+                accr = accr + dt
                 if any(x["kind"] == "route" for x in bad):
                     break
         except Exception as e:
